@@ -238,7 +238,8 @@ def part_b(ctx, tmp):
         flux = np.array([rng.uniform(0.005, 0.02) for _ in range(nw)])
         tau = np.array([[rng.uniform(0, 5) for _ in range(nw)] for _ in range(rng.randint(2, 4))])
         kind = ['native', 'simple', 'flux'][n % 3]
-        size = [OutputSize.lighter, OutputSize.light, OutputSize.heavy][(n // 3) % 3]
+        # the enum members, and the plain integers the program produces with output_size - 3
+        size = [OutputSize.lighter, OutputSize.light, OutputSize.heavy, 3, 0, -2, 2, 4, 7][(n // 3) % 9]
         nb = rng.randint(2, 6)
         tgt = np.sort(np.array(rng.sample(list(np.linspace(wn[0] + 1, wn[-1] - 1, 40)), nb)))
         widths = None
@@ -246,7 +247,7 @@ def part_b(ctx, tmp):
             widths = np.array([rng.uniform(10, 80) for _ in range(nb)])
         binner = dict(native=lambda: NativeBinner(), simple=lambda: SimpleBinner(tgt, widths),
                       flux=lambda: FluxBinner(tgt, widths))[kind]()
-        rp = dict(part='spectrum dictionary', binner=kind, output_size=size.name, native_wngrid=wn, target=tgt, widths=widths)
+        rp = dict(part='spectrum dictionary', binner=kind, output_size=int(size), native_wngrid=wn, target=tgt, widths=widths)
         with np.errstate(all='ignore'):
             out = binner.generate_spectrum_output((wn, flux, tau, None), output_size=size)
         bad = None
@@ -266,11 +267,10 @@ def part_b(ctx, tmp):
                 bad = 'binned_wlwidth is not binned_wnwidth converted at the bin centre'
             elif len(out['binned_spectrum']) != len(out['binned_wngrid']):
                 bad = 'binned_spectrum and binned_wngrid have different lengths'
-        if ('native_tau' in out) != (size > OutputSize.light) or \
-                (kind != 'native' and ('binned_tau' in out) != (size > OutputSize.lighter)):
-            bad = 'optical depths do not follow the output size %s: keys %r' % (size.name, sorted(out))
+        if ('native_tau' in out) != (int(size) > 3) or (kind != 'native' and ('binned_tau' in out) != (int(size) > 1)):
+            bad = 'optical depths do not follow the output size %d: keys %r' % (int(size), sorted(out))
         if bad:
-            ctx.violation('spectrum-dict:' + kind, 'spectrum dictionary (%s binner, %s): %s' % (kind, size.name, bad), replay=rp)
+            ctx.violation('spectrum-dict:' + kind, 'spectrum dictionary (%s binner, size %d): %s' % (kind, int(size), bad), replay=rp)
         # stored and read back
         path = os.path.join(tmp, 'b.h5')
         with HDF5Output(path) as o:
@@ -280,17 +280,16 @@ def part_b(ctx, tmp):
                 if k not in f['Spectra'] or not np.array_equal(f['Spectra'][k][()], np.asarray(v), equal_nan=True):
                     ctx.violation('spectrum-dict-stored', 'spectrum entry %s changes when stored and read back' % k, replay=rp)
         b = dict(native='BNative', simple='BSimple', flux='BFlux')[kind]
-        s = {1: 'Lighter', 3: 'Light', 6: 'Heavy'}[int(size)]
-        e = 'run_keys %s %s' % (b, s)
+        e = 'run_keys %s (%d)%%Z' % (b, int(size))
         if kind == 'native':
             e2 = 'run_native_grids %s' % C.qlist(wn.tolist())
         else:
             e2 = 'run_binned_grids %s %s' % (C.qlist(np.asarray(out['binned_wngrid']).tolist()),
                                             C.qlist(np.asarray(out['binned_wnwidth']).tolist()))
         exprs.append('([%s], %s)' % (e, e2))
-        metas.append(dict(out=out, kind=kind, rp=rp, nw=nw, size=size.name))
+        metas.append(dict(out=out, kind=kind, rp=rp, nw=nw, size=int(size)))
         ctx.count('B-binner:' + kind)
-        ctx.count('B-size:' + size.name)
+        ctx.count('B-size:%d' % int(size))
     # (list (list (list Z)), list (list (list Z))) pairs are not lists: evaluate keys and grids separately
     keys = C.run_cases('C16k', HEADER, [x[1:x.index('],') + 1] for x in exprs], shard=60)
     grids = C.run_cases('C16g', HEADER, [x[x.index('],') + 3:-1] for x in exprs], shard=20)
@@ -431,6 +430,30 @@ def part_c(ctx, tmp):
             except Exception as e:
                 ctx.count('C-model-invalid')
                 continue
+            # the per-contribution dictionaries the program stores get output_size - 3
+            from taurex.util.output import store_contributions
+            from taurex.binning import FluxBinner, SimpleBinner
+            from taurex import OutputSize
+            for named in (OutputSize.heavy, OutputSize.light, OutputSize.lighter):
+                bw = np.sort(np.array(rng.sample(list(np.linspace(float(r1[0][0]) + 1, float(r1[0][-1]) - 1, 30)), 3)))
+                binner = rng.choice([FluxBinner, SimpleBinner])(bw)
+                with np.errstate(all='ignore'):
+                    tree = store_contributions(binner, model, output_size=named - 3)
+                found = []
+
+                def walk(dd, pfx):
+                    for kk, vv in dd.items():
+                        if isinstance(vv, dict):
+                            walk(vv, pfx + '/' + kk)
+                        elif kk in ('binned_tau', 'native_tau'):
+                            found.append(pfx + '/' + kk)
+                walk(tree, '')
+                want_b, want_n = int(named) - 3 > 1, int(named) - 3 > 3
+                if any(('binned_tau' in f_) != want_b for f_ in found if 'binned_tau' in f_) or \
+                        any(('native_tau' in f_) != want_n for f_ in found if 'native_tau' in f_) or \
+                        (want_b and not any('binned_tau' in f_ for f_ in found)):
+                    ctx.violation('contribution-tau', 'contributions stored for output size %s hold optical depths %r; expected '
+                                  'binned: %s, native: %s' % (named.name, found[:4], want_b, want_n), replay=rp)
             try:
                 with np.errstate(all='ignore'), HDF5Output(path) as o:
                     model.write(o)
